@@ -259,9 +259,20 @@ def load_check(prop):
     return importlib.import_module('checks.%s' % prop.lower())
 
 
+def _limit_memory():
+    # a change to the code under test that allocates without end must end
+    # in a MemoryError inside one worker, not take the machine down
+    import resource
+    lim = 8 << 30
+    soft, hard = resource.getrlimit(resource.RLIMIT_AS)
+    if soft == resource.RLIM_INFINITY or soft > lim:
+        resource.setrlimit(resource.RLIMIT_AS, (lim, hard))
+
+
 def _worker(args):
     prop, shard = args
     mod = load_check(prop)
+    _limit_memory()
     t0 = time.time()
     try:
         res = mod.run_shard(shard)
